@@ -246,7 +246,7 @@ func streamC08Gw(env *runEnv) {
 	srv := newL2Server(false, 0)
 	defer srv.close()
 	all := [4]bool{true, true, true, true}
-	sizes := []int{100, 4000, 4089, 5000, 20000, 60000}
+	sizes := []int{100, 4000, 4089, 5000, 20000, 60000, 65535}
 	if env.thorough() {
 		sizes = append(sizes, 4080, 4088, 4090, 8192, 12000, 33000, 65000)
 	}
